@@ -33,20 +33,23 @@ _ipv6 = (
     rf"|(?:(?:{_h16}:){{0,6}}{_h16})?::)"
 )
 _zone = rf"(?:%25(?:[{_unres}]|{_pct})+)"  # RFC 6874
-RE_IPV6 = re.compile(rf"^{_ipv6}$")
-RE_IPV6Z = re.compile(rf"^{_ipv6}{_zone}$")
-RE_IPVFUTURE = re.compile(rf"^v[0-9A-Fa-f]+\.[{_unres}{_sub}:]+$")
-RE_IPV4 = re.compile(rf"^{_ipv4}$")
-RE_REGNAME = re.compile(rf"^(?:[{_unres}{_sub}]|{_pct})*$")
-RE_USERINFO = re.compile(rf"^(?:[{_unres}{_sub}:]|{_pct})*$")
-RE_PATH_ABEMPTY = re.compile(rf"^(?:/{_pchar}*)*$")
-RE_QUERY = re.compile(rf"^(?:{_pchar}|[/?])*$")
-RE_SCHEME = re.compile(r"^[A-Za-z][A-Za-z0-9+.\-]*$")
+RE_IPV6 = re.compile(rf"^{_ipv6}\Z")
+RE_IPV6Z = re.compile(rf"^{_ipv6}{_zone}\Z")
+RE_IPVFUTURE = re.compile(rf"^v[0-9A-Fa-f]+\.[{_unres}{_sub}:]+\Z")
+RE_IPV4 = re.compile(rf"^{_ipv4}\Z")
+RE_REGNAME = re.compile(rf"^(?:[{_unres}{_sub}]|{_pct})*\Z")
+RE_USERINFO = re.compile(rf"^(?:[{_unres}{_sub}:]|{_pct})*\Z")
+RE_PATH_ABEMPTY = re.compile(rf"^(?:/{_pchar}*)*\Z")
+RE_QUERY = re.compile(rf"^(?:{_pchar}|[/?])*\Z")
+RE_SCHEME = re.compile(r"^[A-Za-z][A-Za-z0-9+.\-]*\Z")
+
+
+_REPERTOIRE = re.compile(r"[A-Za-z0-9\-._~:/?#\[\]@!$&'()*+,;=%]*")
 
 
 def split_rfc3986(text: str):
     """Appendix-B split: (scheme, authority, path, query, fragment); None for absent parts."""
-    m = re.match(r"^(?:([^:/?#]+):)?(?://([^/?#]*))?([^?#]*)(?:\?([^#]*))?(?:#(.*))?$", text, re.S)
+    m = re.match(r"^(?:([^:/?#]+):)?(?://([^/?#]*))?([^?#]*)(?:\?([^#]*))?(?:#(.*))?\Z", text, re.S)
     return m.group(1), m.group(2), m.group(3), m.group(4), m.group(5)
 
 
@@ -148,6 +151,12 @@ def classify_line(raw: bytes, uploads_enabled: bool = False):
         text = raw.decode("utf-8")
     except UnicodeDecodeError:
         return "reject", "invalid-utf8", {59}
+    if not _REPERTOIRE.fullmatch(text):
+        # raw controls, space, non-ASCII, quotes, <>, backslash ...: outside RFC 3986's alphabet.
+        # urllib strips TAB/CR/LF and leading controls silently; the property's grammar does not
+        # say what must happen, so these are grey (counted), whatever the rest looks like.
+        if uploads_enabled or not text.startswith("titan://"):
+            return "undecided", "chars-outside-uri-alphabet", None
     if text.startswith("titan://"):
         if not uploads_enabled:
             return "reject", "titan-disabled", {50}
